@@ -800,3 +800,143 @@ def bind_cfgs(shape, d):
         cfg.setdefault("ns", 0)
         res.append(cfg)
     return res
+
+
+# --------------------------------------------------------------------------
+# 5. C16: schema family
+# --------------------------------------------------------------------------
+
+from sqlalchemy import Index  # noqa: E402
+from sqlalchemy.schema import CreateIndex  # noqa: E402
+from sqlalchemy.schema import CreateTable  # noqa: E402
+from sqlalchemy.schema import DropTable  # noqa: E402
+
+SCHEMAS = (None, "s1", "s2")
+DB_NAMES = ("main", "s1", "s2")
+
+
+def schema_reset_script():
+    """tables a, b in main / s1 / s2 with rows that tell the schemas apart; table c exists nowhere"""
+    out = []
+    for i, db in enumerate(DB_NAMES):
+        base = (i + 1) * 100
+        out.append("DROP TABLE IF EXISTS %s.c;" % db)
+        out.append("DROP INDEX IF EXISTS %s.ix_a_v;" % db)
+        out.append("DROP TABLE IF EXISTS %s.d;" % db)
+        out.append("DROP TABLE IF EXISTS %s.e;" % db)
+        if db == "s1":
+            out.append("CREATE TABLE s1.e (id INTEGER PRIMARY KEY);")  # e exists in s1 only (checkfirst must look at the mapped schema)
+        out.append("CREATE TABLE IF NOT EXISTS %s.a (id INTEGER PRIMARY KEY, v TEXT);" % db)
+        out.append("CREATE TABLE IF NOT EXISTS %s.b (id INTEGER PRIMARY KEY, aid INTEGER, w TEXT);" % db)
+        out.append("CREATE TABLE %s.d (id INTEGER PRIMARY KEY, v TEXT);" % db)
+        out.append("DELETE FROM %s.a; DELETE FROM %s.b;" % (db, db))
+        out.append("INSERT INTO %s.a (id, v) VALUES (%d, '%s-a1'), (%d, '%s-a2');" % (db, base + 1, db, base + 2, db))
+        out.append("INSERT INTO %s.b (id, aid, w) VALUES (%d, %d, '%s-b1'), (%d, %d, '%s-b2'), (%d, 999, '%s-b3');" % (
+            db, base + 11, base + 1, db, base + 12, base + 1, db, base + 13, db))
+    return "\n".join(out)
+
+
+def schema_tables(sa_schema, sb_schema):
+    """fresh MetaData with a@sa_schema, b@sb_schema, c@sa_schema (not created), d@sb_schema"""
+    m = MetaData()
+    a = Table("a", m, Column("id", Integer, primary_key=True), Column("v", String), schema=sa_schema)
+    b = Table("b", m, Column("id", Integer, primary_key=True), Column("aid", Integer), Column("w", String), schema=sb_schema)
+    c = Table("c", m, Column("id", Integer, primary_key=True), Column("v", String), schema=sa_schema)
+    Index("ix_c_v", c.c.v)  # explicit name: auto-generated index names embed the table's own schema
+    d = Table("d", m, Column("id", Integer, primary_key=True), Column("v", String), schema=sb_schema)
+    Table("e", m, Column("id", Integer, primary_key=True), schema=sa_schema)
+    return m, a, b, c, d
+
+
+def _sx_select(a, b, c, d):
+    return select(a.c.id, a.c.v).order_by(a.c.id), None
+
+
+def _sx_join(a, b, c, d):
+    return select(a.c.v, b.c.w).join(b, a.c.id == b.c.aid).order_by(b.c.id), None
+
+
+def _sx_exists_cte(a, b, c, d):
+    cte = select(b.c.aid).where(b.c.w.like("%b1")).cte("cb")
+    return select(a.c.id, a.c.v).where(a.c.id.in_(select(cte.c.aid))).where(exists(select(b.c.id).where(b.c.aid == a.c.id))).order_by(a.c.id), None
+
+
+def _sx_alias_subq(a, b, c, d):
+    a2 = a.alias("a2")
+    sub = select(b.c.aid, func.count(b.c.id).label("n")).group_by(b.c.aid).subquery("sb")
+    return select(a2.c.v, sub.c.n).outerjoin(sub, a2.c.id == sub.c.aid).order_by(a2.c.id), None
+
+
+def _sx_insert(a, b, c, d):
+    return insert(a).values(id=7, v="new").returning(a.c.id, a.c.v), None
+
+
+def _sx_insert_many(a, b, c, d):
+    return insert(a).returning(a.c.id), [dict(id=7, v="n7"), dict(id=8, v="n8")]
+
+
+def _sx_insert_from_select(a, b, c, d):
+    return insert(a).from_select(["id", "v"], select(b.c.id + 1000, b.c.w).where(b.c.aid != 999)), None
+
+
+def _sx_update(a, b, c, d):
+    return update(a).values(v=a.c.v + "!").where(exists(select(b.c.id).where(b.c.aid == a.c.id))), None
+
+
+def _sx_delete(a, b, c, d):
+    return delete(b).where(b.c.aid.in_(select(a.c.id))).returning(b.c.id), None
+
+
+def _sx_create_table(a, b, c, d):
+    return CreateTable(c), None
+
+
+def _sx_create_index(a, b, c, d):
+    return CreateIndex(Index("ix_a_v", a.c.v)), None
+
+
+def _sx_drop_table(a, b, c, d):
+    return DropTable(d), None
+
+
+SCHEMA_SHAPES = {
+    "select": dict(fn=_sx_select, kind="select"),
+    "join": dict(fn=_sx_join, kind="select"),
+    "exists_cte": dict(fn=_sx_exists_cte, kind="select"),
+    "alias_subq": dict(fn=_sx_alias_subq, kind="select"),
+    "insert": dict(fn=_sx_insert, kind="dml"),
+    "insert_many": dict(fn=_sx_insert_many, kind="dml"),
+    "insert_from_select": dict(fn=_sx_insert_from_select, kind="dml"),
+    "update": dict(fn=_sx_update, kind="dml"),
+    "delete": dict(fn=_sx_delete, kind="dml"),
+    "create_table": dict(fn=_sx_create_table, kind="ddl"),
+    "create_index": dict(fn=_sx_create_index, kind="ddl"),
+    "drop_table": dict(fn=_sx_drop_table, kind="ddl"),
+    "create_all": dict(fn=None, kind="meta"),
+}
+
+ABSENT = "<absent>"
+
+
+def all_maps():
+    """every function {None,s1,s2} -> {None,s1,s2,absent}, fewest keys first"""
+    import itertools as _it
+
+    out = []
+    targets = (ABSENT, None, "s1", "s2")
+    for combo in _it.product(targets, repeat=3):
+        m = {k: v for k, v in zip(SCHEMAS, combo) if v != ABSENT}
+        out.append(m)
+    out.sort(key=lambda m: (len(m), sum(1 for k, v in m.items() if k != v), repr(sorted(m.items(), key=repr))))
+    return out
+
+
+def quick_maps():
+    """the maps with <= 1 key plus six two-key maps (swap, None<->s1, chain, identity, None-identity)"""
+    ms = [m for m in all_maps() if len(m) <= 1]
+    ms += [{"s1": "s2", "s2": "s1"}, {None: "s1", "s1": None}, {None: "s2", "s2": "s1"}, {"s1": "s1", "s2": "s2"}, {None: None, "s1": "s2"}, {None: "s1", "s2": "s2"}]
+    return ms
+
+
+def map_key(m):
+    return "{" + ", ".join("%r: %r" % (k, m[k]) for k in SCHEMAS if k in m) + "}"
